@@ -1,0 +1,14 @@
+//go:build !verif
+
+// Package verifhook provides observation/scheduling points for the external
+// verification harness. Without the `verif` build tag every call is a no-op.
+package verifhook
+
+// Enabled reports whether hooks are compiled in.
+const Enabled = false
+
+// At is a no-op without the verif tag.
+func At(point string, args ...any) {}
+
+// Tune returns def without the verif tag.
+func Tune(name string, def int64) int64 { return def }
